@@ -399,6 +399,11 @@ func (x *ctx) setup() error {
 		x.rogues = append(x.rogues, rg)
 	}
 	s0 := uint32(100 + rng.Intn(1000))
+	if rng.Intn(3) == 0 {
+		// a device installed long after genesis: replies whose window starts more than a window before its
+		// history (offset 0, or any offset a rogue server chooses) are as legal as any other
+		s0 = uint32(5000 + rng.Intn(200000))
+	}
 	x.latest = s0 + 1
 	x.rows = fmt.Sprintf("timestamp,energy\n%d,1000\n%d,-2000\n", glow.GenesisTime+int64(s0)*300+5, glow.GenesisTime+int64(s0+1)*300+5)
 	x.told = map[[32]byte]bool{}
@@ -1026,6 +1031,7 @@ func runCase(cc *caseCfg, b run.Batch, r *ev.Result) (abort bool) {
 		return true
 	}
 	x.checkFile("after final close")
+	x.tornListRestart()
 	if cc.Liveness {
 		return x.stalePhase()
 	}
